@@ -296,13 +296,9 @@ func (c *c08Checker) query(t *rapid.T, n *engcNode, e c08Entity, r basics.Round)
 		}
 		c.vk.Add("lookups", 1)
 	case "prefix":
-		// "all keys" is asked the way the only production caller does (math.MaxUint64); maxKeyNum == 0, documented in
-		// ledger.go as "loads all keys", is a reported finding (see c08KnownMax0) and excluded here by construction.
-		maxArg := e.max
-		if maxArg == 0 {
-			maxArg = math.MaxUint64
-		}
-		got, err := l.LookupKeysByPrefix(r, e.key, maxArg)
+		// maxKeyNum == 0 is documented in ledger.go as "loads all keys"; the REST handler asks for all with math.MaxUint64.
+		// Both are part of the domain (0 used to fail: finding fixed in c1ea62a92e, frozen in TestVerif_C08_RegressMax0).
+		got, err := l.LookupKeysByPrefix(r, e.key, e.max)
 		if verdict("LookupKeysByPrefix "+e.String(), err) {
 			all := want.KvKeys(e.key)
 			sort.Strings(got)
@@ -401,8 +397,8 @@ func (c *c08Checker) entities() []c08Entity {
 		out = append(out, c08Entity{kind: "creator", cidx: id, ctype: other})
 		if types[id] == basics.AppCreatable {
 			p := engcBoxKey(basics.AppIndex(id), "")
-			out = append(out, c08Entity{kind: "prefix", key: p}, c08Entity{kind: "prefix", key: p + "a"}, c08Entity{kind: "prefix", key: p, max: 1},
-				c08Entity{kind: "prefix", key: p, max: 2}, c08Entity{kind: "prefix", key: p + "a", max: 1})
+			out = append(out, c08Entity{kind: "prefix", key: p}, c08Entity{kind: "prefix", key: p + "a"}, c08Entity{kind: "prefix", key: p, max: math.MaxUint64},
+				c08Entity{kind: "prefix", key: p, max: 1}, c08Entity{kind: "prefix", key: p, max: 2}, c08Entity{kind: "prefix", key: p + "a", max: 1})
 			for _, name := range engcBoxNames {
 				out = append(out, c08Entity{kind: "kv", key: engcBoxKey(basics.AppIndex(id), name)})
 			}
@@ -426,14 +422,72 @@ func (c *c08Checker) rounds(n *engcNode) []basics.Round {
 	return out
 }
 
-// sample asks k drawn (entity, round) questions on every node.
+// recent lists the entities touched by the blocks of rounds (lo, latest]: questions about them are the ones that can
+// cross the memory/disk split (deterministic order).
+func (c *c08Checker) recent(lo basics.Round) []c08Entity {
+	m := c.w.Model
+	seen := map[string]bool{}
+	var out []c08Entity
+	add := func(e c08Entity) {
+		k := e.String()
+		if !seen[k] {
+			seen[k] = true
+			out = append(out, e)
+		}
+	}
+	for r := lo + 1; r <= m.Latest(); r++ {
+		ch := &m.At(r).Changes
+		addrs := make([]basics.Address, 0, len(ch.Accts))
+		for a := range ch.Accts {
+			addrs = append(addrs, a)
+		}
+		engcSortAddrs(addrs)
+		for _, a := range addrs {
+			add(c08Entity{kind: "acct", addr: a})
+		}
+		var res []c08Entity
+		for k := range ch.Assets {
+			res = append(res, c08Entity{kind: "asset", addr: k.Address, cidx: basics.CreatableIndex(k.Asset), ctype: basics.AssetCreatable})
+		}
+		for k := range ch.Apps {
+			res = append(res, c08Entity{kind: "app", addr: k.Address, cidx: basics.CreatableIndex(k.App), ctype: basics.AppCreatable})
+		}
+		for k := range ch.Kv {
+			res = append(res, c08Entity{kind: "kv", key: k})
+			if len(k) >= 11 {
+				res = append(res, c08Entity{kind: "prefix", key: k[:11]}, c08Entity{kind: "prefix", key: k[:11], max: 1})
+			}
+		}
+		_, types := m.EverCreatables()
+		for id := range ch.Creatables {
+			ct, ok := types[id]
+			if !ok {
+				ct = basics.AssetCreatable
+			}
+			res = append(res, c08Entity{kind: "creator", cidx: id, ctype: ct})
+		}
+		sort.Slice(res, func(i, j int) bool { return res[i].String() < res[j].String() })
+		for _, e := range res {
+			add(e)
+		}
+	}
+	return out
+}
+
+// sample asks k drawn (entity, round) questions on every node; half of them about recently touched entities.
 func (c *c08Checker) sample(t *rapid.T, k int) {
 	ents := c.entities()
 	for _, n := range c.w.Nodes() {
 		rs := c.rounds(n)
 		d, latest := n.DBRound(), c.w.Model.Latest()
+		hot := c.recent(d.SubSaturate(2))
 		for i := 0; i < k; i++ {
-			e := ents[rapid.IntRange(0, len(ents)-1).Draw(t, "entity")]
+			var e c08Entity
+			if len(hot) > 0 && rapid.Bool().Draw(t, "hot") {
+				e = hot[rapid.IntRange(0, len(hot)-1).Draw(t, "hotEntity")]
+			} else {
+				e = ents[rapid.IntRange(0, len(ents)-1).Draw(t, "entity")]
+			}
 			var r basics.Round
 			switch rapid.IntRange(0, 7).Draw(t, "roundClass") {
 			case 0:
@@ -510,7 +564,7 @@ func c08Render(l *Ledger, e c08Entity, r basics.Round) string {
 		v, err := l.LookupKv(r, e.key)
 		return fmt.Sprintf("%x %v %v", v, v != nil, err)
 	case "prefix":
-		ks, err := l.LookupKeysByPrefix(r, e.key, math.MaxUint64)
+		ks, err := l.LookupKeysByPrefix(r, e.key, 0)
 		sort.Strings(ks)
 		return fmt.Sprintf("%q %v", ks, err)
 	}
@@ -662,15 +716,14 @@ func TestVerif_C08_Metamorphic(t *testing.T) {
 	rapid.Check(t, func(rt *rapid.T) { c08Run(t, rt, vk, engcOpts{Shadow: true}) })
 }
 
-// TestVerif_C08_KnownMax0 reproduces, on a hand-made history, the class excluded by construction from the units above:
-// Ledger.LookupKeysByPrefix(round, prefix, maxKeyNum = 0). ledger.go documents "if maxKeyNum == 0 it loads all keys",
-// but the sqlite reader tests `resultCount == maxKeyNum` before scanning the first row, so with no matching key in
-// the in-memory deltas it returns DB round 0 (=> StaleDatabaseRoundError when dbRound > 0) and never reads the keys.
-// The only production caller passes math.MaxUint64. Reported through vk.Known when the finding is listed in
-// KNOWN_FINDINGS.txt; until then it is only counted as excluded (the unit never fails on this).
-func TestVerif_C08_KnownMax0(t *testing.T) {
+// TestVerif_C08_RegressMax0 freezes the counter-example found by this check (fixed in /repo by c1ea62a92e):
+// Ledger.LookupKeysByPrefix(round, prefix, maxKeyNum = 0) - documented as "loads all keys" - returned
+// StaleDatabaseRoundError (dbRound > 0) or no database keys, whenever no matching key was in the in-memory deltas,
+// because the store readers tested `resultCount == maxKeyNum` (0 == 0) before reading the first row.
+// Minimal history: create an app, fund it, create one box, add MaxAcctLookback+2 empty blocks, commit, ask.
+func TestVerif_C08_RegressMax0(t *testing.T) {
 	vk := vkBegin(t, "C08")
-	vk.Rule("hand-made history: create an app, fund it, create one box, add empty blocks until the box is only in the tracker DB, commit; then ask LookupKeysByPrefix(latest, boxPrefix, 0). " +
+	vk.Rule("regression: hand-made history (create app, fund it, create one box, empty blocks until the box is only in the tracker DB, commit), then LookupKeysByPrefix(latest, boxPrefix, 0 and MaxUint64) must both list the box. " +
 		"Non-trivial: the box key is on disk and absent from the in-memory deltas. Distinct: by world configuration.")
 	rapid.Check(t, func(rt *rapid.T) {
 		w := engcNewWorld(t, rt, engcOpts{Label: vk.Label, Profile: "pay"})
@@ -709,26 +762,15 @@ func TestVerif_C08_KnownMax0(t *testing.T) {
 		latest := w.Model.Latest()
 		onDiskOnly := w.Node.DBRound() >= boxRound
 		vk.Case(onDiskOnly, strings.Join(w.History, "|"))
-		// the supported way works
-		all, err := w.Node.L.LookupKeysByPrefix(latest, prefix, math.MaxUint64)
-		if err != nil || len(all) != 1 || all[0] != engcBoxKey(app, "x") {
-			rt.Fatalf("C08 VIOLATION: LookupKeysByPrefix(%d, boxes of app %d, MaxUint64) = %q, %v; want the one box \"x\"", latest, app, all, err)
-		}
-		got, err := w.Node.L.LookupKeysByPrefix(latest, prefix, 0)
-		if err == nil && len(got) == 1 && got[0] == all[0] {
-			vk.Label("max0:answers-correctly")
-			return
-		}
-		what := fmt.Sprintf("LookupKeysByPrefix(round %d, boxes of app %d, maxKeyNum 0) = %q, err %v; the app has box \"x\" (dbRound %d, box created in round %d)",
-			latest, app, got, err, w.Node.DBRound(), boxRound)
-		vk.Label("max0:reproduced")
-		if vkKnownListed("C08", "keysbyprefix-max0") {
-			vk.Known("keysbyprefix-max0", what, map[string]any{"history": w.History})
-		} else {
-			vk.Excluded("keysbyprefix-max0 (reproduced; finding reported but not listed in KNOWN_FINDINGS.txt)")
+		for _, max := range []uint64{math.MaxUint64, 0} {
+			got, err := w.Node.L.LookupKeysByPrefix(latest, prefix, max)
+			if err != nil || len(got) != 1 || got[0] != engcBoxKey(app, "x") {
+				rt.Fatalf("C08 VIOLATION: LookupKeysByPrefix(round %d, boxes of app %d, maxKeyNum %d) = %q, err %v; the app has exactly box \"x\" (dbRound %d, box created in round %d)\n%s",
+					latest, app, max, got, err, w.Node.DBRound(), boxRound, strings.Join(w.History, "\n"))
+			}
 		}
 		if vk.WantSample(onDiskOnly) {
-			vk.Sample(onDiskOnly, map[string]any{"history": w.History, "observed": what})
+			vk.Sample(onDiskOnly, map[string]any{"history": w.History, "dbRound": w.Node.DBRound(), "boxRound": boxRound})
 		}
 	})
 }
